@@ -44,6 +44,13 @@ def main():
                        "all property theorems check", "build failed", None)
     axioms = sorted({a for l in ob["assumptions"].values() for a in l})
 
+    # 2b. the Cython source cannot be rebuilt here: tie the checks to the .pyx in the
+    #     working tree through the fail-closed transpiler (harness/pyx2py.py)
+    pyx_info = None
+    if pid in ("C04", "C05", "C06", "C07", "C12"):
+        import pyx2py
+        pyx_info = pyx2py.tie(V, str(common.REPO), common.rng_for(args.seed, "pyx"))
+
     # 3. correspondence
     mod = importlib.import_module(f"corr_{pid}")
     ctx = dict(tier=args.tier, seed=args.seed, replay=None)
@@ -66,6 +73,8 @@ def main():
         print_assumptions=ob["assumptions"],
     )
     coverage.update(cov)
+    if pyx_info is not None:
+        coverage["pyx_tie"] = pyx_info
     if args.tier == "thorough":
         chk = common.coqchk(pid)
         coverage["coqchk"] = chk
